@@ -44,7 +44,7 @@ def legacy_text(items):
 
 def graw(g):
     f, notify, _o, children = g
-    return C("G", Nat(f), bool(notify), [graw(c) for c in children])
+    return C("G", [Nat(f)], bool(notify), not 6 <= f <= 8, [graw(c) for c in children])
 
 
 def to_term(case, obs):
@@ -327,6 +327,31 @@ def corpus():
     return cs
 
 
+def check_hyps(ctx, cases):
+    """The hypotheses of the C08 theorems (Model.hyps) on the model run of every tree-shaped history."""
+    terms = []
+    for c in cases:
+        ops = []
+        for op in c["ops"]:
+            if op[0] in ("Reg", "Unreg"):
+                ops += [C("Observe" if op[0] == "Reg" else "Unobserve", Nat(0), Nat(c["root"]), graw(g))
+                        for g in c["graphs"]]
+            else:
+                ops.append(c08.op_term(op))
+        terms.append((Nat(c["npool"]), ops))
+    name = ("hypotheses of the C08 theorems (Model.hyps: edge-acyclic, fresh containers, live registrations) hold on "
+            "every generated tree-shaped history, as tree_shaped_edge_acyclic predicts")
+    try:
+        (res,) = coqrun.eval_cases(ctx.scratch, "hyps", c08.HEADER, "(nat * list C08.Model.op)%type", terms, ["hyp_codes"])
+    except coqrun.CoqError as e:
+        ctx.obligation(name, False, str(e)[-300:])
+        return
+    bad = sorted(set(i for i, _ in res))
+    ctx.obligation(name, not bad, "hyps = true on %d of %d histories" % (len(cases) - len(bad), len(cases)))
+    if bad:
+        ctx.notes.append("hyps false on case %d: %r" % (bad[0], cases[bad[0]]["ops"]))
+
+
 def run(ctx):
     ok, log = ctx.proofs(PROPS)
     ctx.cov["trusted_base"] += [
@@ -354,4 +379,6 @@ def run(ctx):
     hist.run(ctx, DRIVER, cases, to_term, HEADER, CASE_T, key_fn, describe, nontrivial,
              relation="C16.Corr.corr_codes (legacy_to_graph twin; C08 model = observe() calls on every step)",
              do_shrink=False)
+    if not ctx.replay:
+        check_hyps(ctx, cases)
     proof_gate(ctx, ok, log, PROPS)
